@@ -57,6 +57,9 @@ STATEMENT_STATUS = {
         "its value from any main-scanner state, at every buffer size",
     "C01_hex_statement": "full statement; FALSE on the code (C01_hex_statement_fails, C01_odd_hex_cex): odd digit "
                          "count, open finding odd-hex-digit; C01_hex_token_partial proved for even counts",
+    "C01_hex_token_code / _buffered / C01_hex_code_even": "proved, every digit count: the code reads the digit pairs and a "
+        "final odd digit as the LOW nibble (codePairUp) at every buffer size; equal to ISO's reading for even counts - "
+        "the open finding is the ONLY deviation of the hex-string reader",
     "C01_nesting": "proved for every clean tree of any depth incl. a bare n g R with any generation (PDFStreamParser: "
                    "flush holds back two trailing integers, PSEOF hand-out)",
     "C01_getobj_nesting / C01_getobj_roundtrip_partial": "proved: n g obj <spelled tree> endobj read by the model of "
